@@ -213,6 +213,8 @@ def run(ctx):
                 early += ["%s at %s" % (H.kind(x), H.loc(x)) for x in H.walk(lp["body"]) if H.kind(x) == "Break"]
         cut = ["%s at %s" % (x["name"], H.loc(x)) for x in H.walk(call_arm["body"]) if H.kind(x) == "MethodCall" and x["name"] in ("take_while", "take", "skip", "skip_while", "step_by", "map_while") and "Value" in (x.get("ty") or "")]
         ctx.inst("C15.R8", "Call#all-arguments", not early and not cut, "loops over the call's arguments that can end early: %s" % ((early + cut) or "none"), H.loc(call_arm["body"]))
+    from rules import c04 as c04__
+    c04__.call_arguments_in_order(ctx, "C15.R8", core)
     INTS = ("i8", "i16", "i32", "i64", "i128", "isize", "u8", "u16", "u32", "u64", "u128")
     for name in ("Sum", "Avg", "Prod", "Min", "Max"):
         a = arms.get(name)
